@@ -13,6 +13,7 @@ X == <<120>>
 Y == <<121, 32, 122>>                 \* "y z"
 ValsX  == {X}
 ValsXE == {X, <<>>}
+ValsXL == {X, [i \in 1..250 |-> 118]}       \* a value of 250 bytes (buffer backed in the library)
 NoBase == <<>>
 BaseA  == <<A>>
 BaseM  == <<M>>
@@ -79,9 +80,9 @@ pA    == <<97, 42>>                  \* "a*"
 pAll  == <<42>>                      \* "*"
 pQ    == <<109, 63, 116, 95, 97>>    \* "m?t_a"
 EnvQ == { EC("array", Null0, 0, <<eMA, ema>>), EC("environ", Null0, 0, <<eMA, eOth>>),
-          EC("array", pA, 46, <<eOth, eMAB>>), EC("array", Null0, 0, <<eM_A, eNoEq, eMA>>) }
+          EC("array", pA, 46, <<eOth, eMAB>>), EC("array", Null0, 0, <<eM_A, eNoEq, eMA>>), EC("environ", pA, 0, <<>>) }
 EnvT == EnvQ \cup { EC("array", Null0, 95, <<ema, eMA>>), EC("environ", pAll, 0, <<eMAB, eM_A, eOth>>),
-                    EC("array", pQ, 97, <<eMA, ema, eMAB>>), EC("environ", pA, 0, <<>>), EC("array", pAll, 46, <<eOth, eMA>>) }
+                    EC("array", pQ, 97, <<eMA, ema, eMAB>>), EC("array", pAll, 46, <<eOth, eMA>>) }
 
 \* argument strings
 aAB  == <<97, 46, 98, 61, 120>>          \* a.b=x
@@ -100,7 +101,8 @@ cEmp == <<>>
 ClearQ == { <<cA>>, <<cAB, cMA>>, <<cEmp, cAB>> }
 ClearT == ClearQ \cup { <<cMA, cA, cAB>>, <<cAB, cA>> }
 MS(hdr, split, els, val) == [hdr |-> hdr, split |-> split, els |-> els, val |-> val]
-MSetQ == { MS(0, 1000, <<A>>, X), MS(1, 3, <<A, B>>, X), MS(1, 1000, <<M, E, A>>, <<>>), MS(0, 1, <<>>, X) }
+L250 == [i \in 1..250 |-> 118]
+MSetQ == { MS(0, 1000, <<A>>, X), MS(1, 3, <<A, B>>, X), MS(1, 1000, <<M, E, A>>, <<>>), MS(0, 1, <<>>, X), MS(1, 100, <<A>>, L250) }
 MSetT == MSetQ \cup { MS(1, 0, <<A>>, Y), MS(0, 4, <<A, B>>, <<>>), MS(1, 2, <<>>, Y), MS(0, 2, <<E>>, X) }
 MG(sep, split, ps) == [sep |-> sep, split |-> split, ps |-> ps]
 MGetQ == { MG(0, 1000, << <<A>> >>), MG(32, 2, << <<A>>, <<A, B>> >>), MG(0, 3, << <<M, A>>, <<A>> >>) }
